@@ -34,11 +34,38 @@ PATHS = ('direct', 'proto', 'sql')
 # ---------------------------------------------------------------------------
 # clock
 # ---------------------------------------------------------------------------
+class Hang(Exception):
+  """A designer call did not return within the watchdog limit."""
+
+
 @contextlib.contextmanager
-def clock(t):
-  """time.time() == t + 0.25 inside the block (t < 2**31 - 1)."""
-  with mock.patch('time.time', return_value=float(t) + 0.25):
-    yield
+def clock(t, limit=15.0):
+  """time.time() == t + 0.25 inside the block (t < 2**31 - 1).
+
+  Also arms a watchdog (real-time interval timer, main thread only): a
+  designer call that is still running after `limit` seconds is interrupted by
+  raising `Hang` inside it.  Designer calls take milliseconds; the firefly
+  pool has a loop that never terminates for some pools (seen in run A, i.e.
+  independent of restarts), which would otherwise stall a whole shard.
+  """
+  import signal
+  import threading
+  armed = threading.current_thread() is threading.main_thread()
+
+  def on_alarm(signum, frame):
+    del signum, frame
+    raise Hang('designer call still running after %.0f s' % limit)
+
+  if armed:
+    previous = signal.signal(signal.SIGALRM, on_alarm)
+    signal.setitimer(signal.ITIMER_REAL, limit)
+  try:
+    with mock.patch('time.time', return_value=float(t) + 0.25):
+      yield
+  finally:
+    if armed:
+      signal.setitimer(signal.ITIMER_REAL, 0)
+      signal.signal(signal.SIGALRM, previous)
 
 
 # ---------------------------------------------------------------------------
@@ -369,8 +396,8 @@ def steps(draw, n_values=1, infeasible=True, min_steps=3, max_steps=12,
   n = draw(st.integers(min_steps, max_steps))
   # the mask style is drawn first so that "every step", "none" and sparse
   # masks all occur often
-  style = draw(st.sampled_from(['sparse', 'sparse', 'dense', 'all', 'late',
-                                'none']))
+  style = draw(st.sampled_from(['sparse', 'sparse', 'dense', 'dense', 'all',
+                                'late', 'late', 'none']))
   out = []
   for i in range(n):
     count = draw(st.integers(min_count, max_count))
@@ -389,7 +416,7 @@ def steps(draw, n_values=1, infeasible=True, min_steps=3, max_steps=12,
     elif style == 'dense':
       r = draw(chance(75))
     else:
-      r = draw(chance(int(p_restart * 100 / 2)))
+      r = draw(chance(int(p_restart * 100 * 2 / 3)))
     path = draw(st.sampled_from(list(paths))) if r else None
     out.append({'count': count, 'fb': fb, 'restart': path,
                 'dt': draw(st.sampled_from([1, 1, 7, 3600, 86400]))})
